@@ -25,6 +25,7 @@ import (
 	"github.com/anishathalye/porcupine"
 
 	"verif/engine"
+	"verif/harness/c03"
 	"verif/harness/c12"
 	"verif/harness/c17"
 	"verif/harness/hk"
@@ -283,6 +284,10 @@ func all(tier string) (sets []*engine.Scenario, bounds []int) {
 	}
 	for _, sc := range c12.Scenarios(tier) {
 		sc.Name = "listeners-" + sc.Name
+		addS(racesOnly(sc), b(2, 3))
+	}
+	for _, sc := range c03.TwoListenerScenarios() {
+		sc.Name = "udp-handler-" + sc.Name
 		addS(racesOnly(sc), b(2, 3))
 	}
 	for _, sc := range c17.ConcScenarios() {
